@@ -27,7 +27,9 @@ FieldCtx == {"req", "opt", "nested"}       \* positions that are struct fields (
 AddlKinds == {"string", "integer", "number", "boolean"}
 \* "map": value of a property-less object with typed additionalProperties (a Go map); "maparr": element of an array
 \* that is such a value (map[string][]T)
-Contexts == {"req", "opt", "item", "item2", "def", "nested", "addl", "map", "maparr"}
+\* "bothdefs": the document carries `$defs` AND the legacy `definitions`, each with an entry N of a different type;
+\* "#/$defs/N" means the entry of `$defs`
+Contexts == {"req", "opt", "item", "item2", "def", "nested", "addl", "map", "maparr", "bothdefs"}
 
 LeafOf(k) ==
   CASE k = "string"  -> [type |-> <<"string">>]
@@ -67,6 +69,7 @@ Unit(c, k, n) ==
       xobj(s, r) == ("type" :> <<"object">>) @@ ("properties" :> <<[k |-> "x", s |-> s]>>)
                     @@ (IF r THEN "required" :> <<"x">> ELSE <<>>)
       arr(s) == [type |-> <<"array">>, items |-> s]
+      other == IF k \in {"boolean", "booltime"} THEN Int_ ELSE [type |-> <<"boolean">>]
       base == [prop |-> "C03", ctx |-> c, kind |-> k, nullable |-> n, defs |-> <<>>, opts |-> [minSizedInts |-> k = "sizedint"], nobuild |-> <<>>]
       mapOf(s) == [type |-> <<"object">>, additionalProperties |-> [k |-> "s", s |-> s]]
   IN
@@ -78,6 +81,9 @@ Unit(c, k, n) ==
                                docs |-> [i \in DOMAIN Values |-> Wrap(JArr(<<JArr(<<ok>>), JArr(<<ok, Values[i]>>)>>))]]
     [] c = "def"   -> [base EXCEPT !.defs = <<[k |-> "N", s |-> leaf]>>]
                       @@ [schema |-> xobj([ref |-> [k |-> "defs", n |-> "N"]], TRUE),
+                          docs |-> [i \in DOMAIN Values |-> Wrap(Values[i])]]
+    [] c = "bothdefs" -> [base EXCEPT !.defs = <<[k |-> "N", s |-> leaf]>>]
+                      @@ [schema |-> xobj([ref |-> [k |-> "defs", n |-> "N"]], TRUE), ldefs |-> <<[k |-> "N", s |-> other]>>,
                           docs |-> [i \in DOMAIN Values |-> Wrap(Values[i])]]
     [] c = "nested" -> base @@ [schema |-> xobj(("type" :> <<"object">>) @@ ("properties" :> <<[k |-> "y", s |-> leaf]>>), TRUE),
                                 docs |-> [i \in DOMAIN Values |-> Wrap(JObj(<<KV("y", Values[i])>>))]]
@@ -93,7 +99,7 @@ Set == kind # "?"
 
 \* the value at the typed position of document i
 At(unit, d) ==
-  CASE unit.ctx \in {"req", "opt", "def"} -> ObjVal(d, "x")
+  CASE unit.ctx \in {"req", "opt", "def", "bothdefs"} -> ObjVal(d, "x")
     [] unit.ctx = "item"   -> ObjVal(d, "x").a[2]
     [] unit.ctx = "item2"  -> ObjVal(d, "x").a[2].a[2]
     [] unit.ctx = "nested" -> ObjVal(ObjVal(d, "x"), "y")
